@@ -124,7 +124,7 @@ def gen_plan(prop, seed, index, tier="quick", with_faults=None):
 
 def gen_faults(r, prop, nbrokers, topics, producers):
     kinds = ["drop_before_apply", "drop_after_apply", "lose_response", "reply_error",
-             "leader_move", "leader_unavailable", "stale_metadata", "delay"]
+             "leader_move", "leader_unavailable", "stale_metadata", "delay", "broker_down"]
     if prop == "C02":
         kinds.append("wall_clock_jump")
     enabled = r.sample(kinds, r.randint(1, len(kinds)))
@@ -155,6 +155,10 @@ def gen_faults(r, prop, nbrokers, topics, producers):
         elif k == "stale_metadata":
             faults.append({"on": trig, "do": {"stale_metadata": [r.randint(1, nbrokers),
                                                                  r.choice([0.1, 0.5, 2.0])]}})
+        elif k == "broker_down":
+            # connections dropped and refused for a while (a connect that fails is retriable too)
+            faults.append({"on": trig, "do": {"broker_down": [r.randint(1, nbrokers),
+                                                              r.choice([0.02, 0.1, 0.5])]}})
         elif k == "wall_clock_jump":
             faults.append({"on": trig, "do": {"wall_clock_jump": r.choice([-3600.0, 5.0, 86400.0])}})
     return faults
